@@ -110,6 +110,7 @@ func storagePart(rep *common.Report) int {
 			var ds []diff
 			orig := c.v
 			cmpVertex(&ds, &orig, &a.v)
+			ds = signedDiffs(ds)
 			if len(ds) > 0 {
 				var fs []string
 				for _, d := range ds {
@@ -128,6 +129,7 @@ func storagePart(rep *common.Report) int {
 			}
 			var dt []diff
 			cmpTrx(&dt, &orig.Transaction, &a.t)
+			dt = signedDiffs(dt)
 			if len(dt) > 0 {
 				rep.Add(common.Violation{Predicate: "C19.storage-path", Key: "C19.storage/transaction-field-changed/" + fieldName[dt[0].f],
 					What: fmt.Sprintf("%s: the transaction read by hash differs in %s: %s -> %s", name, fieldName[dt[0].f], dt[0].before, dt[0].after), Witness: map[string]any{"mode": "storage", "case": c.name}})
